@@ -199,6 +199,7 @@ type Obligation struct {
 	Output  string
 	File    string
 	Cover   bool // a reachability (vacuity) query: expected sat
+	Group   string // covers of one group are alternatives (vacuous only if all are refuted)
 	Seq     int
 	ifacePreds map[string]types.Type
 	world      *World
